@@ -78,6 +78,20 @@ def run(ctx):
             return 2
         rc, out = ctx.run_harness(binp, test)
         ops, impl, model = (os.path.join(ctx.out, label + "." + e) for e in ("ops", "impl", "model"))
+        if rc != 0 and ("panic:" in out or "fatal error:" in out) and os.path.exists(ops):
+            # the real code panicked where the harness cannot recover (a goroutine started by Build):
+            # that is a failure of the property, not of the infrastructure.  The session that was being
+            # built is the tail of the ops file (flushed before every Build).
+            opl = read_lines(ops)
+            start = max([i for i, l in enumerate(opl) if l.startswith("new ")] or [0])
+            sess = [l if len(l) < 4000 else l[:4000] + "…" for l in opl[start:]][-60:]
+            first = next((l for l in out.split("\n") if l.startswith(("panic:", "fatal error:"))), "panic")
+            where = [l.strip() for l in out.split("\n") if "/dae/" in l or "wt-" in l][:6]
+            ctx.report(f"{label}: the real code crashed the process while building the session below: {first[:200]}",
+                       {"stream": label, "panic": first, "stack": where, "session": sess,
+                        "replay": "VERIF_SEED=%d ./check C11 %s" % (ctx.seed, ctx.tier)})
+            total += len(opl)
+            continue
         if rc != 0 or not os.path.exists(ops):
             ctx.say("HARNESS-FAILED", label, out[-3000:])
             return 2
